@@ -150,7 +150,7 @@ func Harness_C10_merge_ff() {
 	}
 	if mainDescends && ff != conf.FF_Never {
 		// other is main or an ancestor of main: nothing to merge, the branch stays
-		zzverif.Assert("merging-an-ancestor-keeps-the-branch", err == nil && !moved)
+		zzverif.Assert("merging-an-ancestor-keeps-the-branch", !moved)
 	}
 	zzverif.Reach("end")
 }
